@@ -17,7 +17,9 @@ EXPLANATION = (
     'from start − origin along end − start; bounding box rectangle from its pixel-edge extent. (R2) in all 8 artist-building '
     'as_artist bodies the kwargs handed to the artist are the visual defaults updated with the caller\'s kwargs last. (R3) the '
     'annulus path reverses the inner outline exactly once and the outer never, outer first in vertices and codes, and the '
-    'delegation annulus → compound → components keeps origin and kwargs. Not decided: matplotlib\'s meaning of those arguments '
+    'delegation annulus → compound → components keeps origin and kwargs. (R2b) every stored visual key that the visual→mpl '
+    'translation renames (keymaps read from the source) is confronted with a small trusted table of matplotlib aliases: a '
+    'caller keyword with the stored key\'s own name must not reach the artist next to the renamed stored value. Not decided: matplotlib\'s meaning of those arguments '
     '(trusted table); curve approximation; the visual→mpl key translation values.')
 TRUSTED = ['matplotlib Circle(xy, radius), Ellipse(xy, width, height, angle[deg]), Rectangle(xy, width, height, angle[deg] about xy), '
            'Polygon(xy n×2), Line2D(xs, ys), Arrow(x, y, dx, dy), Text(x, y, text), Path(vertices, codes)',
@@ -254,8 +256,57 @@ def r3(ctx):
         ctx.bad('AnnulusPixelRegion.as_artist', 'delegation', f'is `{src}`', fd.loc())
 
 
+# matplotlib facts used by R2b (trusted): for Text, `size`/`fontsize`, `weight`/`fontweight`, `style`/`fontstyle` are aliases
+# of one property and passing both raises TypeError; for Line2D, `color` and `markeredgecolor` (`linewidth` and
+# `markeredgewidth`) are different properties; for Patch, `color` overrides `edgecolor`.
+MPL_SAME_PROPERTY = {'Text': {('fontsize', 'size'), ('fontweight', 'weight'), ('fontstyle', 'style')}}
+MPL_OTHER_PROPERTY = {'Line2D': {('color', 'markeredgecolor'), ('linewidth', 'markeredgewidth')}}
+
+
+def r2b(ctx):
+    """a caller keyword must win over the stored visual attribute *of the same name*: if the translation renames the
+    stored key, the caller's keyword has to be renamed alike (else both reach matplotlib under two names)."""
+    m = ctx.model
+    rv = m.cls('RegionVisual')
+    f = method_or_fail(ctx, rv, '_to_mpl_kwargs')
+    keymaps = {}
+    for n in ast.walk(f.node):
+        if isinstance(n, ast.If) and isinstance(n.test, ast.Compare) and isinstance(n.test.comparators[0], ast.Constant):
+            art = n.test.comparators[0].value
+            for st in n.body:
+                if isinstance(st, ast.Assign) and isinstance(st.value, ast.Dict) and ast.unparse(st.targets[0]) == 'keymap':
+                    keymaps[art] = {ast.literal_eval(k): ast.literal_eval(v) for k, v in zip(st.value.keys, st.value.values)}
+    ctx.need(set(keymaps) >= {'Text', 'Line2D', 'Patch'}, f.qualname, f'keymaps found for {sorted(keymaps)}')
+    # does any as_artist translate the caller's kwargs with the same map?
+    translated = set()
+    for ci in m.region_classes('pixel'):
+        g = m.method(ci, 'as_artist')
+        if g is not None and any('_to_mpl_kwargs' in ast.unparse(c) or 'keymap' in ast.unparse(c)
+                                 for c in ast.walk(g.node) if isinstance(c, ast.Call)):
+            translated.add(ci.name)
+    for art in ('Text', 'Line2D', 'Patch'):
+        renamed = {(k, v) for k, v in keymaps[art].items() if k != v}
+        clash = sorted(renamed & MPL_SAME_PROPERTY.get(art, set()))
+        shadow = sorted(renamed & MPL_OTHER_PROPERTY.get(art, set()))
+        users = [ci.name for ci in m.region_classes('pixel') if getattr(ci, 'name', None) and
+                 (m.lookup(ci, '_mpl_artist') is not None) and ci.name not in translated]
+        if clash and users:
+            ctx.bad(art, 'alias-collision',
+                    f'stored visual keys {[k for k, v in clash]} are handed to matplotlib.{art} as {[v for k, v in clash]}; a caller '
+                    f'keyword of the same name (e.g. {clash[0][0]}=20) is added unrenamed, so both aliases reach the artist and '
+                    'matplotlib raises TypeError instead of the caller\'s value overriding the stored one', f.loc())
+        elif shadow and users:
+            ctx.bad(art, 'alias-shadow',
+                    f'stored visual keys {[k for k, v in shadow]} are handed to matplotlib.{art} as {[v for k, v in shadow]}; a caller '
+                    f'keyword of the same name (e.g. {shadow[0][0]}=...) sets a different artist property, so the stored value '
+                    'still decides what is drawn', f.loc())
+        else:
+            ctx.ok(art, 'renamed keys cannot meet a caller keyword under another name')
+
+
 RULES = [
     RuleDef('R1', 'artist constructor arguments (8 artists)', r1, 8),
     RuleDef('R2', 'caller kwargs override the visual defaults', r2, 8),
+    RuleDef('R2b', 'caller keyword vs renamed stored key (matplotlib alias table)', r2b, 3),
     RuleDef('R3', 'annulus path: hole orientation, roles, delegation', r3, 3),
 ]
